@@ -299,10 +299,10 @@ Proof.
     rewrite (lak_of _ _ _ Hl). cbn [pbind tkind]. kcomp.
     unfold ahead_str. cbn [ahead tstr]. rewrite (ssq_quoted s Hs). cbn [lift_res pbind fst snd].
     rewrite ntp_StA. reflexivity.
-  - assert (Hk : lex_token (([34%N] ++ s ++ [34%N]) ++ rest) = Ok (mkTok KString s, rest)).
-    { replace (([34%N] ++ s ++ [34%N]) ++ rest) with (34%N :: s ++ 34%N :: rest)
+  - assert (Hk : lex_token (([39%N] ++ s ++ [39%N]) ++ rest) = Ok (mkTok KString s, rest)).
+    { replace (([39%N] ++ s ++ [39%N]) ++ rest) with (39%N :: s ++ 39%N :: rest)
         by (cbn [app]; rewrite <- !app_assoc; reflexivity).
-      apply lex_string; [reflexivity|]. apply no_quote_no; [right; reflexivity | exact Hnq]. }
+      apply lex_string; [reflexivity|]. apply no_quote_no; [left; reflexivity | exact Hnq]. }
     pose proof (At_la _ _ _ _ Hat Hk) as Hl.
     rewrite (lak_of _ _ _ Hl). cbn [pbind tkind]. kcomp.
     unfold ahead_str. cbn [ahead tstr]. rewrite (ssq_plain s Hnq). cbn [lift_res pbind fst snd].
